@@ -107,9 +107,22 @@ func (fs *FS) setFile(path string, file FileRecord) error {
 		err = fs.setFileTxn(txn, path, file, contents)
 	}
 	if err == nil {
-		_, err = txn.Commit(context.Background())
+		err = commitErr(txn.Commit(context.Background()))
 	}
 	return err
+}
+
+// commitErr returns the first error of a commit: either the commit's own or one of its operations'.
+func commitErr(results []OpResult, err error) error {
+	if err != nil {
+		return err
+	}
+	for _, result := range results {
+		if result.Err != nil {
+			return result.Err
+		}
+	}
+	return nil
 }
 
 func (fs *FS) setFileTxn(txn Transaction, path string, file FileRecord, contents blob.Blob) error {
